@@ -2,14 +2,15 @@
 from . import vnet
 
 
-def run_server(proto, world, client_fragments, ctx=None):
+def run_server(proto, world, client_fragments, ctx=None, bringup=False):
     """client_fragments: list (one per client) of lists of byte fragments.
     Returns (net, info, crashed)."""
     import socketserver
     import comm.server as SRV
     net = vnet.Net(ctx)
     sched = net.sched
-    proto.initialize_device = lambda: None
+    if not bringup:
+        proto.initialize_device = lambda: None     # the device is connected and was brought up already
 
     def on_exchange(apdu):
         world.tag = vnet.real_threading.current_thread().name
